@@ -98,6 +98,18 @@ Definition forbes_spec (A B : list iv) (size : Z) : Z * Z :=
   (count_bases (fun x => covered A x && covered B x) size * size,
    count_bases (covered A) size * count_bases (covered B) size).
 
+(* a genome = list of contigs (size, A on that contig, B on that contig); its bases are the disjoint union of the
+   contigs' bases, so every genome-wide count is the sum of the per-contig counts *)
+Definition contig := (Z * list iv * list iv)%type.
+Definition genome_count (f : list iv -> list iv -> Z -> bool) (g : list contig) : Z :=
+  sumZ (map (fun c => let '(size, a, b) := c in count_bases (f a b) size) g).
+Definition genome_size (g : list contig) : Z := sumZ (map (fun c => fst (fst c)) g).
+Definition jaccard_genome_spec (g : list contig) : Z * Z :=
+  (genome_count (fun a b x => covered a x && covered b x) g, genome_count (fun a b x => covered a x || covered b x) g).
+Definition forbes_genome_spec (g : list contig) : Z * Z :=
+  (genome_count (fun a b x => covered a x && covered b x) g * genome_size g,
+   genome_count (fun a b x => covered a x) g * genome_count (fun a b x => covered b x) g).
+
 Fixpoint forall2b {A B} (f : A -> B -> bool) (a : list A) (b : list B) : bool :=
   match a, b with
   | [], [] => true
@@ -272,6 +284,20 @@ Definition stream_similarity_pinned (f : list iv -> list iv -> Z -> option (Z * 
 Definition stream_similarity_fixed (f : list iv -> list iv -> Z -> option (Z * Z)) (A B : list iv) (size : Z) : result (Z * Z) :=
   of_option (f A B size).
 Definition stream_similarity := stream_similarity_fixed.      (* <- /repo HEAD since a68b397 *)
+(* on a genome with several contigs the stream route adds up the per-contig contingency tables (@streamable(sum)) *)
+Fixpoint genome_table (g : list contig) : option (Z * Z * Z * Z) :=
+  match g with
+  | [] => Some (0, 0, 0, 0)
+  | (size, a, b) :: r =>
+      match contingency_model a b size, genome_table r with
+      | Some (t1, t2, t3, t4), Some (u1, u2, u3, u4) => Some (t1 + u1, t2 + u2, t3 + u3, t4 + u4)
+      | _, _ => None
+      end
+  end.
+Definition jaccard_genome_model (g : list contig) : result (Z * Z) :=
+  of_option (match genome_table g with Some (a, b, c, d) => Some (m_jaccard_num a b c d, m_jaccard_den a b c d) | None => None end).
+Definition forbes_genome_model (g : list contig) : result (Z * Z) :=
+  of_option (match genome_table g with Some (a, b, c, d) => Some (m_forbes_num a b c d, m_forbes_den a b c d) | None => None end).
 Definition jaccard_stream_model := stream_similarity jaccard_model.
 Definition forbes_stream_model := stream_similarity forbes_model.
 
